@@ -81,7 +81,26 @@ def run_on(R, hist, op, ren, drop=()):
 def renamed_runner(spec, subset):
     sc, objs = build_api(spec)
     before = [(t.source, t.target, t.event, t.internal) for t in sc.transitions]
+    # the statechart has been used before it is renamed (queries answered, one execution)
+    for n in sc.states:
+        sc.depth_for(n), sc.ancestors_for(n), sc.descendants_for(n)
+    from sismic.interpreter import Interpreter
+    Interpreter(sc, initial_context=probes.CONTEXT()).execute_once()
     ren = {}
+    if subset == 'shift':
+        # order-preserving renaming that RE-USES names: every state takes the former name of its successor
+        # in name order (the last one gets a fresh name)
+        names = sorted(s_['name'] for s_ in spec['states'])
+        plan = [(names[-1], fresh_name(names[-1]))] + [(names[i], names[i + 1]) for i in range(len(names) - 2, -1, -1)]
+        for old, new in plan:
+            sc.rename_state(old, new)
+        ren = {new: old for old, new in plan}
+        after = [(ren.get(t.source, t.source), ren.get(t.target, t.target) if t.target else t.target,
+                  t.event, t.internal) for t in sc.transitions]
+        problems = []
+        if before != after:
+            problems.append('transitions changed by the shifting renaming')
+        return engine.Runner(spec, prebuilt=(sc, None)), ren, problems
     for old in subset:
         sc.rename_state(old, fresh_name(old))
         ren[fresh_name(old)] = old
@@ -134,7 +153,7 @@ def work(task):
     variants = []
     diffs = []
     if mode == 'rename':
-        subsets = [(n,) for n in names] + list(itertools.combinations(names, 2)) + [tuple(names)]
+        subsets = [(n,) for n in names] + list(itertools.combinations(names, 2)) + [tuple(names), 'shift']
         for sub in subsets:
             try:
                 R, ren, problems = renamed_runner(spec, sub)
